@@ -1,0 +1,18 @@
+//go:build verif
+
+package lexer
+
+// VerifLexerState exposes, for verification harnesses only (build tag "verif"), the state a
+// *StatefulLexer holds between calls of Next: the state stack (names and the groups captured by
+// the rule that entered each state) and the number of unread bytes.
+func VerifLexerState(l Lexer) (names []string, groups [][]string, remaining int, ok bool) {
+	sl, ok := l.(*StatefulLexer)
+	if !ok {
+		return nil, nil, 0, false
+	}
+	for _, st := range sl.stack {
+		names = append(names, st.name)
+		groups = append(groups, append([]string{}, st.groups...))
+	}
+	return names, groups, len(sl.data), true
+}
